@@ -9,15 +9,15 @@ import (
 type kind int
 
 const (
-	kUnknown kind = iota
-	kAny          // decoded yaml value (tree)
-	kMap          // map[string]any
-	kSlice        // []any
-	kStrSlice     // []string, [N]string
-	kKeys         // set.Set[string]
-	kDimPtr       // *dimension
-	kDims         // []*dimension
-	kErr          // error (true = non-nil)
+	kUnknown  kind = iota
+	kAny           // decoded yaml value (tree)
+	kMap           // map[string]any
+	kSlice         // []any
+	kStrSlice      // []string, [N]string
+	kKeys          // set.Set[string]
+	kDimPtr        // *dimension
+	kDims          // []*dimension
+	kErr           // error (true = non-nil)
 	kBool
 	kString
 	kEnum // genum.Enum: index of the constant
